@@ -1,0 +1,41 @@
+//go:build verif
+// +build verif
+
+package core
+
+// Machine-checked contracts for package core (comment-only file; compiled
+// only with -tags verif and adds no code). Syntax and semantics: see the
+// verification framework's DESIGN.md, section 2.1.
+
+// ---- ghost state shared by the handler contracts ----------------------
+//
+//@ ghost fwd int
+//@ ghost npanic int
+//@ ghost ret_response []byte
+//@ ghost ret_err error
+//@ ghost ret_result []interface{}
+
+// ---- function-type contracts (assumed for handlers passed in, checked
+// ---- for the handlers defined in this repository) ---------------------
+//
+//@ type NextIOHandler(ctx, request) (response, err)
+//@   havoc
+//@   modifies ghost.fwd, ghost.npanic, ghost.ret_response, ghost.ret_err, ghost.clock
+//@   ensures ghost.fwd == old(ghost.fwd) + 1 && ghost.npanic == old(ghost.npanic)
+//@   ensures same(response, ghost.ret_response) && same(err, ghost.ret_err)
+//@   ensures ghost.clock >= old(ghost.clock)
+//@   ensures_panic ghost.fwd == old(ghost.fwd) + 1 && ghost.npanic == old(ghost.npanic) + 1
+//@   ensures_panic ghost.clock >= old(ghost.clock)
+//
+//@ type NextInvokeHandler(ctx, name, args) (result, err)
+//@   havoc
+//@   modifies ghost.fwd, ghost.npanic, ghost.ret_result, ghost.ret_err, ghost.clock
+//@   ensures ghost.fwd == old(ghost.fwd) + 1 && ghost.npanic == old(ghost.npanic)
+//@   ensures same(result, ghost.ret_result) && same(err, ghost.ret_err)
+//@   ensures ghost.clock >= old(ghost.clock)
+//@   ensures_panic ghost.fwd == old(ghost.fwd) + 1 && ghost.npanic == old(ghost.npanic) + 1
+//@   ensures_panic ghost.clock >= old(ghost.clock)
+
+//@ func NewPanicError
+//@   nopanic
+//@   ensures result != nil
